@@ -724,6 +724,112 @@ Definition apply_shape (v2 : bool) (args : list bytes) : ares :=
 
 End WithFloat.
 
+(* ====================== the batch pre-check of the apply loop ====================== *)
+(* node/state_machine.go isValidBatchableWrite(cmdName, args, ts): may this batchable write (SET, SETEX,
+   single-key DEL, HMSET) join the open write batch? It has to imply that the handler's own argument
+   checks pass, because an error inside a batch aborts the batch of all the clients. *)
+Definition max_uint32 : Z := 4294967295.
+Definition valid_ttl (ts_sec d : Z) : bool := (0 <? d)%Z && (d <? max_uint32 - 1 - ts_sec)%Z.
+
+(* getExNxXXArgs: Some duration (0 when no EX) when there is no error *)
+Fixpoint exnxxx_d (opts : list bytes) (nxorxx : bool) (dur : Z) : option Z :=
+  match opts with
+  | [] => Some dur
+  | o :: rest =>
+    let op := lower o in
+    if bytes_eqb op (B "nx") || bytes_eqb op (B "xx") then
+      if nxorxx then None else exnxxx_d rest true dur
+    else if bytes_eqb op (B "ex") then
+      match rest with
+      | [] => None
+      | secs :: rest' =>
+        match parse_int secs with
+        | None => None
+        | Some d => if (d <=? 0)%Z then None else exnxxx_d rest' nxorxx d
+        end
+      end
+    else None
+  end.
+
+(* all field/value pairs: CheckKeySubKey(rk, field) and the value size *)
+Fixpoint pairs_ok (rk : bytes) (fvs : list bytes) : bool :=
+  match fvs with
+  | f :: v :: rest => check_key rk && check_subkey f && negb (max_value_size <? blen v) && pairs_ok rk rest
+  | _ => true
+  end.
+
+Definition valid_batchable (name : bytes) (args : list bytes) (ts_sec : Z) : bool :=
+  if Nat.ltb (alen args) 2 then false
+  else
+    let key := arg args 1 in
+    if negb (check_key key) then false
+    else match index_sep key_sep key with
+         | Some (S p) =>
+           if bytes_eqb name (B "set") then
+             if Nat.ltb (alen args) 3 || (max_value_size <? blen (arg args 2)) then false
+             else if Nat.ltb 3 (alen args) then
+               match exnxxx_d (skipn 3 args) false 0 with
+               | None => false
+               | Some d => (d =? 0)%Z || valid_ttl ts_sec d
+               end
+             else true
+           else if bytes_eqb name (B "setex") then
+             if negb (Nat.eqb (alen args) 4) || (max_value_size <? blen (arg args 3)) then false
+             else match parse_int (arg args 2) with
+                  | None => false
+                  | Some d => valid_ttl ts_sec d
+                  end
+           else if bytes_eqb name (B "del") then Nat.eqb (alen args) 2
+           else if bytes_eqb name (B "hmset") then
+             let fvs := skipn 2 args in
+             let rk := skipn (S (S p)) key in
+             if negb (Nat.even (length fvs)) || (max_batch_num <? N.of_nat (length fvs / 2)) then false
+             else if max_key_size <? (blen rk / 8 + 1) * 9 + 64 then false
+             else pairs_ok rk fvs
+           else true
+         | _ => false
+         end.
+
+(* the argument checks of the handlers and store functions themselves (node/keys.go localSetCommand,
+   node/ttl.go localSetexCommand, node/hash.go localHMsetCommand, rockredis KVSet / KVSetWithOpts / SetEx /
+   HMset / prepareCollKeyForWrite / rawExpireAt): true = no error that depends on the arguments only.
+   [vk] = the versioned form of a hash key under the expiration policy (its length is what HMset checks). *)
+Definition has_table (key : bytes) : bool :=
+  match index_sep key_sep key with Some (S _) => true | _ => false end.
+Definition ttl_fits (ts_sec d : Z) : bool := (d + ts_sec <? max_uint32 - 1)%Z.
+Fixpoint store_pairs_ok (vkey : bytes) (fvs : list bytes) : bool :=
+  match fvs with
+  | f :: v :: rest => check_key vkey && check_subkey f && negb (max_value_size <? blen v) && store_pairs_ok vkey rest
+  | _ => true
+  end.
+Definition store_args_ok (vk : bytes -> bytes) (name : bytes) (args : list bytes) (ts_sec : Z) : bool :=
+  let key := arg args 1 in
+  if bytes_eqb name (B "set") then
+    Nat.leb 3 (alen args) && has_table key && check_key key && negb (max_value_size <? blen (arg args 2)) &&
+    (if Nat.ltb 3 (alen args) then
+       match exnxxx_d (skipn 3 args) false 0 with
+       | None => false
+       | Some d => (d =? 0)%Z || ttl_fits ts_sec d
+       end
+     else true)
+  else if bytes_eqb name (B "setex") then
+    Nat.leb 4 (alen args) && has_table key && check_key key && negb (max_value_size <? blen (arg args 3)) &&
+    match parse_int (arg args 2) with
+    | None => false
+    | Some d => (0 <? d)%Z && ttl_fits ts_sec d
+    end
+  else if bytes_eqb name (B "del") then true         (* kvDel errors are ignored by DelKeys *)
+  else if bytes_eqb name (B "hmset") then
+    let fvs := skipn 2 args in
+    match index_sep key_sep key with
+    | Some p =>
+      let rk := skipn (S p) key in
+      Nat.even (length fvs) && negb (max_batch_num <? N.of_nat (length fvs / 2)) &&
+      (match fvs with [] => true | _ => check_key rk && store_pairs_ok (vk rk) fvs end)
+    | None => false
+    end
+  else true.
+
 (* ---------- the properties as boolean functions ---------- *)
 Definition no_panic (r : ares) : bool := match r with APanic => false | _ => true end.
 
